@@ -115,6 +115,7 @@ pub mod gen {
     /// filters whose atom is one extension-function call with VALUE arguments (literals, singular queries, logical expressions), plain and negated
     pub fn ext_filters() -> Vec<Filter> {
         let abs = |n: &str| FnArg::Test(Box::new(Test::AbsQuery(JpQuery::new(vec![name(n)]))));
+        let absq = |segs: Vec<Segment>| FnArg::Test(Box::new(Test::AbsQuery(JpQuery::new(segs))));
         let arglists: Vec<Vec<FnArg>> = vec![
             vec![arg_rel(vec![]), abs("list")],                         // f(@, $.list)
             vec![arg_rel(vec![name("a")]), arg_rel(vec![name("b")])],   // f(@.a, @.b)
@@ -134,6 +135,14 @@ pub mod gen {
             vec![arg_rel(vec![Segment::Selector(Selector::Index(0))]), abs("list")],   // f(@[0], $.list)
             vec![arg_rel(vec![]), arg_rel(vec![])],                     // f(@, @)
             vec![FnArg::Filter(Filter::Atom(FilterAtom::Comparison(Box::new(Comparison::Eq(cur(vec![]), lit_i(1)))))), abs("list")],   // f(@ == 1, $.list)
+            // arguments written as NON-singular queries that select no node (a missing argument) or exactly one (that node's value);
+            // evaluations in which such an argument selects several nodes are not compared (mirror: ext_multi)
+            vec![arg_rel(vec![]), absq(vec![Segment::Descendant(Box::new(name("blocked")))])],                                   // f(@, $..blocked)
+            vec![absq(vec![Segment::Descendant(Box::new(name("blocked")))]), arg_rel(vec![])],                                   // f($..blocked, @)
+            vec![arg_rel(vec![]), absq(vec![Segment::Descendant(Box::new(name("list")))])],                                      // f(@, $..list)
+            vec![arg_rel(vec![]), absq(vec![name("list"), Segment::Selector(Selector::Filter(cmp(Comparison::Eq(cur(vec![]), lit_s("nope")))))])],   // f(@, $.list[?@ == 'nope'])
+            vec![arg_rel(vec![Segment::Selector(Selector::Wildcard)]), abs("list")],                                                // f(@.*, $.list)
+            vec![arg_rel(vec![Segment::Selector(Selector::Slice(Some(5), None, None))]), abs("list")],                             // f(@[5:], $.list)
         ];
         let mut out = vec![];
         for n in EXT_NAMES {
